@@ -359,7 +359,7 @@ func main() {
 		replay(run)
 		return
 	}
-	run.SetBudget(8*60e9, 60*60e9)
+	run.SetBudget(8*60e9, 25*60e9)
 	thorough := run.Thorough()
 	shard.Run(run, 0, nil, func(info shard.Info, out *shard.Out) {
 		states := buildStates()
